@@ -263,7 +263,11 @@ static void load_and_check(CWorld &w, const LoadFaults &lf, const std::string &c
 	    vcp = vnacal_load(w.name.c_str(), w.cb ? sim_error_fn : nullptr, nullptr);
 	    e = errno;
 	    if (!vcp && !c.violated) check_failure(w, "vnacal_load", e, ctxmsg);
+	    bool eio = g_sim.fired_read_eio > 0;
 	    lc.done();
+	    // the YAML reader consumes its input to the end: if the stream reported a read error (not an early end), what arrived is not
+	    // the file, and a load that reports success would hand out part of a calibration set as the whole
+	    if (vcp && eio && !c.violated) { c.violate("model", "vnacal_load:readerror", "vnacal_load reported success although the stream returned a read error (" + ctxmsg + ")"); }
 	    c11_discipline(c, "vnacal_load", "vnacal_load", vcp == nullptr, e, w.cb, C11_MUST);
 	}
 	if (!c.violated && !vcp && ledger_live() != live_before) { check_ledger_empty(c, ("failed vnacal_load left allocations behind (" + ctxmsg + ")").c_str()); }
@@ -455,7 +459,7 @@ static void run_op(CWorld &w, const Op &op)
 	    default: { size_t len = (size_t)r.range(1, 64); std::string junk; for (size_t z = 0; z < len; ++z) junk += (char)r.below(256); d.replace(pos, std::min(len, d.size() - pos), junk); what += strf("random@%zu+%zu ", pos, len); }
 	    }
 	}
-	simfs()[w.name] = d;
+	simfs()[w.name] = d; if (getenv("VSIM_DUMP_BEFORE")) { fprintf(stderr, "---- %s before the load ----\n", w.name.c_str()); fwrite(d.data(), 1, d.size(), stderr); fprintf(stderr, "\n---- end ----\n"); }
 	LoadFaults lf;
 	lf.frag = op.I(3); lf.bufsize = op.I(4) == -2 ? -1 : op.I(4); lf.eio_at = op.I(5); lf.eof_at = op.I(6);
 	load_and_check(w, lf, "damage: " + what, (int)op.I(2));
